@@ -224,6 +224,7 @@ def check_case(ctx, case, witness=False):
     b2 = R.match(ast, url.strip('/'), True)
     if b2 is None or [v for _, _, v in b2] != [v for _, _, v in b]:
         raise CheckFailure(f'Route({text!r}).url(*{anon!r}, **{named!r}) = {url!r}: reference matcher binds {b2!r}, the assignment was {b!r}')
+    _asked_again(ctx, case, ast, text, route, router, b, anon, named, url)
     nw = sum(1 for s in ast if s[0] == 'w')
     ctx.count('round_trips')
     if anon:
@@ -244,6 +245,70 @@ def check_case(ctx, case, witness=False):
         ctx.count('url_differs_from_original_path(normalised value)')
     if nw:
         ctx.nontrivial(text + ' ' + path, sample={'rule': text, 'path': path, 'url': url, 'params': {k: repr(v) for k, v in named.items()}, 'positional': [repr(a) for a in anon]})
+
+
+def _asked_again(ctx, case, ast, text, route, router, b, anon, named, url):
+    """The same Route object asked again: with this match's values rotated among the named wildcards that share a filter (keywords written in
+    another order), then with the first assignment once more."""
+    ws = [s for s in ast if s[0] == 'w']
+    if len(named) < 2 or case.get('siblings') or any(s[2] == 'rex' for s in ws) or len(ws) != len(b):
+        return
+    groups = {}
+    for s_, (n, t, v) in zip(ws, b):
+        if n:
+            groups.setdefault((s_[2], s_[3]), []).append(n)
+    g = next((g for g in groups.values() if len(g) >= 2), None)
+    if g is None:
+        return
+    rot = dict(zip(g, g[1:] + g[:1]))
+    texts = {n: t for n, t, v in b if n}
+    it = iter(b)
+    path2 = ''
+    for s_ in ast:
+        if s_[0] == 'lit':
+            path2 += s_[1]
+        else:
+            n, t, v = next(it)
+            path2 += texts[rot[n]] if n in rot else t
+    b2 = R.match(ast, path2.strip('/'), True)
+    if b2 is None or [t for _, t, _ in b2] == [t for _, t, _ in b]:
+        return
+    named2 = R.named(b2)
+    anon2 = [v for n, _, v in b2 if not n]
+    kw2 = dict(reversed(list(named2.items())))
+    try:
+        url2 = route.url(*anon2, **kw2)
+        url1 = route.url(*anon, **named)
+    except Exception as e:
+        raise CheckFailure(f'Route({text!r}).url(*{anon2!r}, **{kw2!r}) after url(*{anon!r}, **{named!r}) raised {type(e).__name__}: {e}')
+    ep, _ = router.resolve(url2, ['GET'])
+    if ep is None or ep[1] != named2:
+        raise CheckFailure(f'Route({text!r}): url(*{anon!r}, **{named!r}) = {url!r}, then url(*{anon2!r}, **{kw2!r}) = {url2!r}, which resolves with {ep and ep[1]!r}')
+    if url1 != url:
+        raise CheckFailure(f'Route({text!r}).url(*{anon!r}, **{named!r}) = {url!r} the first time and {url1!r} after another assignment was built')
+    ctx.count('route_asked_again_with_rotated_values_and_keyword_order')
+
+
+def _api_names():
+    """Every parameter / local variable name used by the functions of the router package that is also a legal wildcard name: a rule may use any of them."""
+    import inspect
+    import ombott.router.radirouter as m1
+    import ombott.router.radidict as m2
+    import ombott.router.filter_factory as m3
+    import ombott.ombott as m4
+    names = set()
+
+    def walk(code):
+        names.update(code.co_varnames)
+        for c in code.co_consts:
+            if inspect.iscode(c):
+                walk(c)
+    for m in (m1, m2, m3, m4):
+        try:
+            walk(compile(inspect.getsource(m), m.__file__, 'exec'))
+        except Exception:
+            pass
+    return sorted(n for n in names if re.fullmatch(r'[a-z][a-z0-9_]*', n))
 
 
 def check_threaded(ctx, case):
@@ -407,6 +472,21 @@ def run(ctx):
             ctx.guarded(check_case, {'ast': R._fix(ast), 'choice': [1], 'spell': 0, 'path': pth})
             ctx.guarded(check_case, {'ast': R._fix(ast), 'choice': [3], 'spell': 1, 'path': pth})
         ctx.count('backslash_and_parameter_name_grid')
+        api = _api_names()
+        for nm in api:
+            ast = [lit('/'), W(nm), lit('/stops/'), W('n', 'int')]
+            ctx.guarded(check_case, {'ast': R._fix(ast), 'choice': [1], 'spell': 0, 'path': '/66/stops/7'})
+            ast = [lit('/m/'), W(nm, 'path'), lit('/v'), W(nm + '2', 'int')]
+            ctx.guarded(check_case, {'ast': R._fix(ast), 'choice': [3], 'spell': 1, 'path': '/m/a/b/v2'})
+        ctx.count('wildcards_named_like_the_router_code_own_variables', len(api))
+        for ast, pths in (([lit('/copy/'), W('src'), lit('/'), W('dst')], ['/copy/a/b', '/copy/b/a', '/copy/x/x1']),
+                          ([lit('/'), W('a', 'int'), lit('/'), W('b', 'int'), lit('/x/'), W('c', 'int')], ['/1/2/x/3', '/3/1/x/2', '/10/-4/x/0']),
+                          ([lit('/'), W('a', 'path'), lit('/to/'), W('b', 'path')], ['/p/q/to/r', '/r/to/p/q']),
+                          ([lit('/'), W('k'), lit('-'), W(None), lit('-'), W('v')], ['/a-m-b', '/b-m-a'])):
+            for pth in pths:
+                for ch, sp_ in (([1], 0), ([3], 1)):
+                    ctx.guarded(check_case, {'ast': R._fix(ast), 'choice': ch, 'spell': sp_, 'path': pth})
+        ctx.count('asked_again_grid')
         for ast, paths in (([lit('/left-'), ['w', 'x', 'float', None]], ['/left-2.5', '/left-7']),
                            ([lit('/p/'), ['w', 'p', 'path', None], lit('/end/'), ['w', None, 'int', None]], ['/p/a/b/end/12', '/p/x/end/7']),
                            ([lit('/'), ['w', 'a', None, None], lit('/'), ['w', 'b', 're', '[a-c]+'], lit('.html')], ['/tom/abc.html', '/é/a.html'])):
